@@ -1,7 +1,9 @@
 #![allow(dead_code)]
 mod ast;
 mod bridge;
+mod check_static;
 mod gen;
+mod mutate_ast;
 mod golden;
 mod interp;
 mod jetmodel;
@@ -101,6 +103,8 @@ fn real_main() {
         "c12" => props::c12::run(&mut cx),
         "c14" => props::c14::run(&mut cx),
         "c18" => props::c18::run(&mut cx),
+        "c03" => props::c04::run_c03(&mut cx),
+        "c04" => props::c04::run_c04(&mut cx),
         "c16" => props::c16::run(&mut cx),
         "c17" => props::c17::run(&mut cx),
         "c19" => props::c19::run(&mut cx),
